@@ -24,7 +24,7 @@ ASSUMPTIONS = [
     "wave_shift_corrmax: scipy.signal.correlate(mode='same') is replaced by the exact direct-sum cross-correlation (validated against SciPy on every run), fshift by a probe recording the requested shift; "
     "waveform = three free real samples (middle one >= 1) on a zero baseline of length n in 7..15, copy delayed by a whole number of samples that keeps it inside the window",
 ]
-OUTSIDE = ["all other lengths, fractional shifts vs the analytic delay (FFT numerics)", "wave_shift_corrmax on fractional delays / arbitrary waveforms and shift_waveform accuracy (cross-correlation + FFT numerics)"]
+OUTSIDE = ["all other lengths, fractional shifts vs the analytic delay (FFT numerics) except the length-3 composition case", "wave_shift_corrmax on fractional delays / arbitrary waveforms and shift_waveform accuracy (cross-correlation + FFT numerics)"]
 EXPLANATION = "signal samples symbolic, shifts are enumerated integers; the whole fshift body runs on exact complex pairs."
 LEVEL_TEXT = ("For ALL real signals of length 2 and 4 (1-D, and 2-D along either axis), every integer shift in (-n, n), scalar and per-trace, z3 decides: fshift == circular roll, zero shift == identity, successive shifts add, per-trace shifts equal stacked 1-D calls, "
               "shape preserved, real input left untouched (dtype preservation is only checked by the replays: the symbolic arrays are dtype-less); parabolic_max returns the vertex of every sampled parabola (1-D and 2-D) and the sample itself at the two edges; wave_shift_corrmax returns exactly the applied whole-sample delay and asks fshift for its opposite (all three-sample waveforms, n in 7..15).")
@@ -572,3 +572,10 @@ if not np.allclose(ipeak, P, atol=1e-6) or not np.allclose(maxi, A, atol=1e-6): 
 not_reproduced()
 """
     return None
+
+# level text addendum (round 6)
+ASSUMPTIONS = ASSUMPTIONS + [
+    "length-3 model (case shift_near_integer_*): DFT twiddles and phase factors are the exact rational values of their IEEE doubles (error ~1e-16); the obligation carries a tolerance of 1e-9 for samples in [-1, 1]; validated against SciPy on every run",
+    "np.fft.rfft / irfft / fftshift / np.conj inside ibldsp.waveforms: a spectrum algebra on 1-D real signals (product of spectra = circular convolution, conjugate = circular time reversal, irfft to the original length = the signal, irfft to any other length = fresh unknown reals); only reached by code that correlates through FFTs",
+]
+LEVEL_TEXT = LEVEL_TEXT + " Round 6: two shifts by k/2 + 2^-21 equal one shift by k + 2^-20 (length 3, tolerance 1e-9) - totals a hair away from a whole number of samples; FFT-based correlation is modelled by the convolution theorem."
